@@ -311,7 +311,7 @@ fn stream_sort(run: &mut Run) {
     let mut rng = run.rng("S");
     let cases = run.tier.scale(1200, 12000);
     for it in 0..cases {
-        let n = if it < 24 { 1 + it % 12 } else { 1 + rng.below(12) as usize };
+        let n = if it < 24 { 1 + it % 12 } else if it % 8 == 0 { 21 + rng.below(28) as usize } else { 1 + rng.below(12) as usize };
         let b = if it < 20 { 1 + it % 10 } else { 1 + rng.below(10) as usize };
         let (rows, kind) = gen_key_rows(&mut rng, n, b);
         let key_name = *rng.pick(&["key", "k", "id"]);
@@ -410,7 +410,7 @@ fn stream_intsort(run: &mut Run) {
     let cases = run.tier.scale(990, 9900);
     for it in 0..cases {
         let st = ALL_ST[it % ALL_ST.len()];
-        let n = if it < 11 * 12 { 1 + (it / 11) % 12 } else { 1 + rng.below(12) as usize };
+        let n = if it < 11 * 12 { 1 + (it / 11) % 12 } else if it % 8 == 0 { 21 + rng.below(28) as usize } else { 1 + rng.below(12) as usize };
         let (keys, kind) = gen_int_keys(&mut rng, st, n);
         let key = Col { name: "key".to_owned(), st, shape: vec![n as u64], data: keys.clone() };
         let others = vec![gen_payload(&mut rng, n, "c0", 2), idx_col(n, "idx")];
@@ -531,7 +531,7 @@ fn stream_perm(run: &mut Run) {
     let mut rng = run.rng("P");
     let cases = run.tier.scale(1200, 12000);
     for it in 0..cases {
-        let n = if it < 24 { 1 + it % 12 } else { 1 + rng.below(12) as usize };
+        let n = if it < 24 { 1 + it % 12 } else if it % 8 == 0 { 21 + rng.below(28) as usize } else { 1 + rng.below(12) as usize };
         let pst = PERM_ST[it % 4];
         let (p, kind) = gen_perm(&mut rng, n, pst);
         let valid = kind == "valid" || kind == "identity";
